@@ -18,11 +18,13 @@ from dsim.c14 import launcher
 PROP = "C14"
 
 TIERS = {
-    "quick": {"targets": 320, "runs": 340, "ref_seeds": [0, 1, 20260924], "fresh_checks": 6, "redo": 8, "min_budget": 24,
+    "quick": {"targets": 320, "runs": 340, "ref_seeds": [0, 1, 20260924, 4242], "fresh_checks": 6, "redo": 8, "min_budget": 24,
               "chunk": 12, "budget_s": 420, "torchlib": False},
     "thorough": {"targets": 2600, "runs": 12000, "ref_seeds": [0, 1, 2, 3, 7, 1234567, 20260924, 4294967295], "fresh_checks": 40,
                  "redo": 250, "min_budget": 60, "chunk": 25, "budget_s": 3300, "torchlib": True, "per_family": 10},
 }
+REF_PRE_SKEW = [0, 3, 5, 1, 2, 7, 11, 13]   # pre-import heap skew of the i-th reference environment
+PRE_SKEWS = [0, 0, 1, 2, 3, 5, 7, 11, 13, 101]
 GC_KNOBS = ["default", "default", "aggressive", "disabled", "collect_between"]
 SKEWS = [0, 0, 0, 64, 1000, 20000]
 
@@ -210,7 +212,7 @@ def gen_runs(seed: int, tier: dict, targets: list[dict], repo: str, failing: set
         rng = Rng(seed).sub("run", r)
         env = {
             "hashseed": rng.weighted([(0, 2), (1, 2), (2, 1), (3, 1), (rng.sub("h").below(2**32), 4)]),
-            "gc": rng.choice(GC_KNOBS), "repo": repo, "aslr_off": True,
+            "gc": rng.choice(GC_KNOBS), "repo": repo, "aslr_off": True, "pre_skew": rng.sub("pre").choice(PRE_SKEWS),
         }
         length = rng.randint(2, 9)
         fault_density = rng.choice([0.0, 0.0, 0.25, 0.5])
@@ -321,7 +323,8 @@ def reference_phase(targets: list[dict], tier: dict, pyc: str, repo: str, worker
                 if hi == 0:
                     op["count_calls"] = True
             specs.append({"kit": common.KIT_VERSION, "property": PROP, "mode": "fork_each",
-                          "env": {"hashseed": h, "gc": "default", "repo": repo, "skew": [], "aslr_off": True, "fingerprint": False},
+                          "env": {"hashseed": h, "gc": "default", "repo": repo, "skew": [], "aslr_off": True, "fingerprint": False,
+                                  "pre_skew": REF_PRE_SKEW[hi % len(REF_PRE_SKEW)]},
                           "ops": ops})
             meta.append(h)
     outs = _par(specs, pyc, workers, 900, None)
@@ -691,7 +694,9 @@ def check(tier_name: str, seed: int, max_runs: int | None = None) -> int:
                 h_a = hs[0]
                 h_b = next(h for h in hs if cs[h] != cs[h_a])
                 candidates.append({"class": "seed-dependent", "sig": {"class": "seed-dependent", "kind": t["kind"], "family": t.get("family")},
-                                   "doc": {"op": t, "hashseeds": [h_a, h_b], "ref_specs": [spec_of[(h_a, tid)], spec_of[(h_b, tid)]]}, "detail": f"{t['kind']} {t.get('family')}: differs between PYTHONHASHSEED={h_a} and {h_b}"})
+                                   "doc": {"op": t, "hashseeds": [h_a, h_b], "ref_specs": [spec_of[(h_a, tid)], spec_of[(h_b, tid)]]}, "detail": f"{t['kind']} {t.get('family')}: differs between pristine processes with PYTHONHASHSEED={h_a} and {h_b} "
+                                                                   f"(pre-import heap skew {REF_PRE_SKEW[tier['ref_seeds'].index(h_a) % len(REF_PRE_SKEW)]} and "
+                                                                   f"{REF_PRE_SKEW[tier['ref_seeds'].index(h_b) % len(REF_PRE_SKEW)]})"})
             for h, r in recs.items():
                 for iv in internal_violations(t, r):
                     candidates.append({"class": iv["class"], "sig": {"class": iv["class"], "kind": t["kind"], "family": t.get("family")},
@@ -765,7 +770,7 @@ def check(tier_name: str, seed: int, max_runs: int | None = None) -> int:
                     checked_after += 1
             if checked_after:
                 hist_sigs.add(sha(jdump([[op["id"], bool(rec.get("faulted"))] for op, rec in zip(run["ops"], o["log"])]).encode()
-                                  + jdump([run["env"]["hashseed"], run["env"]["gc"], run["env"]["skew"]]).encode()))
+                                  + jdump([run["env"]["hashseed"], run["env"]["gc"], run["env"]["skew"], run["env"].get("pre_skew")]).encode()))
             for v in viol:
                 candidates.append({"class": v["class"], "sig": {"class": v["class"], "kind": v["kind"], "family": run["ops"][v["op_index"]].get("family")},
                                    "run": run, "v": v, "detail": f"run {run['run']} op {v['op_index']} ({v['kind']}): got {str(v['got'])[:140]} want {str(v['want'])[:140]}"})
